@@ -6,6 +6,8 @@ import subprocess
 import sys
 from datetime import date
 
+from fractions import Fraction
+
 from hypothesis import strategies as st
 
 from . import codec
@@ -224,7 +226,7 @@ def group_case(draw, tier="quick"):
     nv = draw(st.integers(1, 3))
     vals = []
     for _ in range(nv):
-        kind = draw(st.sampled_from(["int", "int", "float", "bool", "str", "date", "bigint", "bigfloat", "cancel", "hugeint", "bigmix"]))
+        kind = draw(st.sampled_from(["int", "int", "float", "bool", "str", "date", "bigint", "bigfloat", "cancel", "hugeint", "bigmix", "fraction"]))
         el = {"int": st.integers(-5, 9), "float": st.sampled_from([0.5, 1.5, -2.0, 3.25, 0.0, 10.0]), "bool": st.booleans(),
               "str": st.sampled_from(["a", "b", "c", ""]), "date": st.sampled_from(KEY_ALPHABETS["date"]),
               "bigint": st.sampled_from([10 ** 8 + 1, 10 ** 8 + 2, 10 ** 8 + 3, 10 ** 8 + 7]),
@@ -233,7 +235,9 @@ def group_case(draw, tier="quick"):
               # ints no float holds exactly (ids, epoch nanoseconds): exact integer arithmetic is the textbook answer
               "hugeint": st.sampled_from([2 ** 53 + 1, 2 ** 53 + 3, 10 ** 18 + 1, 2 ** 62 - 1, 1, -(2 ** 53) - 1]),
               # a float-typed column that still holds such ints (serif keeps raw values): Python adds ints exactly until a float turns up
-              "bigmix": st.sampled_from([2 ** 53 + 1, 1, 0.5, 2 ** 53 + 3, 2.5, 3])}[kind]
+              "bigmix": st.sampled_from([2 ** 53 + 1, 1, 0.5, 2 ** 53 + 3, 2.5, 3]),
+              # exact rationals in an object column: every textbook aggregate but stdev is exact
+              "fraction": st.sampled_from([Fraction(1, 2), Fraction(3), Fraction(-1, 3), Fraction(7, 4)])}[kind]
         mode = draw(st.sampled_from(["no", "some", "some", "all"]))
         xs = draw(st.lists(el, min_size=n, max_size=n))
         if mode == "some":
@@ -263,7 +267,7 @@ def group_case(draw, tier="quick"):
 
 
 KEY_NAMES = ["g0", "G 1", "g2"]
-NUMERIC = ("int", "float", "bool", "bigint", "bigfloat", "hugeint", "bigmix")
+NUMERIC = ("int", "float", "bool", "bigint", "bigfloat", "hugeint", "bigmix", "fraction")
 
 
 def realise_group(case):
